@@ -6,6 +6,9 @@ PREFIX = {'conf': 'c', 'setup': 's', 'before-assert': 'b', 'assert': 'a', 'clean
 
 
 def render_item(item) -> str:
+    if item.get('desc'):
+        # "`DESCRIPTION` INSTRUCTION": an instruction may be preceded by a description (which may span several lines)
+        return '`%s` %s' % (item['desc'], render_item({k: v for k, v in item.items() if k != 'desc'}))
     k = item['k']
     if k == 'fault':
         return 'sim-fault %s' % item['id']
